@@ -5,33 +5,45 @@
 (*   SlowInsert(c)  insert(key, full bucket)   (keeps an existing bucket)                                                   *)
 (*   SlowConsume(c) findAndModify(key): bucket there -> consume; NOT there -> the call returns false (RetryOnMiss = FALSE,  *)
 (*                  the code) or starts over (RetryOnMiss = TRUE, what a repair would do)                                   *)
-(* Remove is removeKey(): one critical section.                                                                             *)
+(* Remove is removeKey(): one critical section.  cleanup(maxIdle) is TWO: CleanupCollect (forEach under shared locks notes   *)
+(* the key if its bucket is idle - with maxIdle * rate >= burst an idle bucket is FULL, which is how the untimed model says    *)
+(* "idle") and CleanupErase (erases the noted key: unconditionally as the code does, EraseRechecks = FALSE, or only if the     *)
+(* bucket is still full, EraseRechecks = TRUE, what a repair would do).                                                         *)
+(*   NoBusyEviction     cleanup never erases a bucket that has been drawn from (observation O-26b when violated)               *)
 (*   NoSpuriousRefusal  a call asking for 1 <= Burst is refused only if some token of the key was granted before            *)
 (*   NeverOverdrawn     tokens never negative / above Burst                                                                 *)
 (* With RetryOnMiss = FALSE TLC's counterexample (Fast miss, SlowInsert, Remove, SlowConsume) is the program                *)
 (* "a=C1z;b=Rz" that X26 runs on the real map under random schedules (observation O-26a).                                   *)
 EXTENDS Naturals, FiniteSets, TLC
-CONSTANTS Callers, Burst, MaxRemoves, RetryOnMiss
-VARIABLES bucket, pc, res, granted, removes
-vars == <<bucket, pc, res, granted, removes>>
+CONSTANTS Callers, Burst, MaxRemoves, RetryOnMiss, MaxCleanups, EraseRechecks
+VARIABLES bucket, pc, res, granted, removes, noted, cleanups, evictedBusy
+vars == <<bucket, pc, res, granted, removes, noted, cleanups, evictedBusy>>
 None == Burst + 1
-Init == bucket = None /\ pc = [c \in Callers |-> "fast"] /\ res = [c \in Callers |-> "-"] /\ granted = 0 /\ removes = 0
+Init == bucket = None /\ pc = [c \in Callers |-> "fast"] /\ res = [c \in Callers |-> "-"] /\ granted = 0 /\ removes = 0 /\ noted = FALSE /\ cleanups = 0 /\ evictedBusy = FALSE
 ConsumeIn(c) == IF bucket >= 1 THEN bucket' = bucket - 1 /\ granted' = granted + 1 /\ res' = [res EXCEPT ![c] = "ok"]
                 ELSE UNCHANGED <<bucket, granted>> /\ res' = [res EXCEPT ![c] = "refused"]
 Fast(c) == /\ pc[c] = "fast"
            /\ IF bucket # None THEN ConsumeIn(c) /\ pc' = [pc EXCEPT ![c] = "done"]
               ELSE pc' = [pc EXCEPT ![c] = "insert"] /\ UNCHANGED <<bucket, granted, res>>
-           /\ UNCHANGED removes
+           /\ UNCHANGED <<removes, noted, cleanups, evictedBusy>>
 SlowInsert(c) == /\ pc[c] = "insert" /\ bucket' = (IF bucket = None THEN Burst ELSE bucket)
-                 /\ pc' = [pc EXCEPT ![c] = "consume"] /\ UNCHANGED <<res, granted, removes>>
+                 /\ pc' = [pc EXCEPT ![c] = "consume"] /\ UNCHANGED <<res, granted, removes, noted, cleanups, evictedBusy>>
 SlowConsume(c) == /\ pc[c] = "consume"
                   /\ IF bucket # None THEN ConsumeIn(c) /\ pc' = [pc EXCEPT ![c] = "done"]
                      ELSE IF RetryOnMiss THEN pc' = [pc EXCEPT ![c] = "fast"] /\ UNCHANGED <<bucket, granted, res>>
                      ELSE pc' = [pc EXCEPT ![c] = "done"] /\ res' = [res EXCEPT ![c] = "refused"] /\ UNCHANGED <<bucket, granted>>
-                  /\ UNCHANGED removes
-Remove == removes < MaxRemoves /\ removes' = removes + 1 /\ bucket' = None /\ UNCHANGED <<pc, res, granted>>
-Next == (\E c \in Callers : Fast(c) \/ SlowInsert(c) \/ SlowConsume(c)) \/ Remove
+                  /\ UNCHANGED <<removes, noted, cleanups, evictedBusy>>
+Remove == removes < MaxRemoves /\ removes' = removes + 1 /\ bucket' = None /\ UNCHANGED <<pc, res, granted, noted, cleanups, evictedBusy>>
+CleanupCollect == /\ ~noted /\ cleanups < MaxCleanups /\ cleanups' = cleanups + 1 /\ noted' = (bucket = Burst)
+                  /\ UNCHANGED <<bucket, pc, res, granted, removes, evictedBusy>>
+CleanupErase == /\ noted /\ noted' = FALSE
+                /\ IF bucket # None /\ (~EraseRechecks \/ bucket = Burst)
+                   THEN bucket' = None /\ evictedBusy' = (evictedBusy \/ bucket < Burst)
+                   ELSE UNCHANGED <<bucket, evictedBusy>>
+                /\ UNCHANGED <<pc, res, granted, removes, cleanups>>
+Next == (\E c \in Callers : Fast(c) \/ SlowInsert(c) \/ SlowConsume(c)) \/ Remove \/ CleanupCollect \/ CleanupErase
 Spec == Init /\ [][Next]_vars
 NoSpuriousRefusal == \A c \in Callers : res[c] = "refused" => granted >= 1
+NoBusyEviction == ~evictedBusy
 NeverOverdrawn == bucket \in 0..Burst \cup {None}
 ===================================================================================
